@@ -27,7 +27,7 @@
 From Coq Require Import List NArith Bool.
 From Mdns Require Import Res Bytes Rec Wire Txt Cache Browser C03Spec BrowserSpec BrowserKnown CacheProofs
   CacheInvProofs BrowserProofs BrowserStepProofs SpecTrackProofs C05SafetyProofs AouCasesProofs C04OrderProofs
-  C05AgainProofs BrowserExamples.
+  C05AgainProofs C05TimelyProofs BrowserExamples.
 Import ListNotations.
 Open Scope N_scope.
 
@@ -145,13 +145,10 @@ Proof. exact spec_tracks_model. Qed.
    The proof carries the C03 cache invariant and `tracks` (spec cache = model cache) through
    every step of the loop iteration and shows at each of the three emission sites that the cache
    of that moment - one of the checker's snapshots - is not strongly alive for the instance.
-   _partial: NOT proved at history level are F05_dead (timeliness: an instance reported resolved
-   is weakly alive at the end of every iteration; needs an invariant tying the checker's "up"
-   list to the model's `resolved` set and the order of events inside an iteration; further
-   classes to exclude: C05-expiry-hidden-by-expiring-ptr, and stop_browse of a second PTR name
-   of an instance - see the note at C05_no_resolved_again_partial) and F05_wake (the model does
-   not compute timers; the wake-ups are an input of the checker).  They stay monitor-checked on
-   every generated history.  F05_again is proved below (round 5). *)
+   _partial: of the checker's failure kinds only F05_wake is NOT proved at history level (the
+   model does not compute timers; the wake-ups are an input of the checker; the cache-layer timer
+   theorem is Props/C12Cache.v).  F05_again is proved below (round 5), F05_dead (timeliness) in
+   round 6 (C05_removed_on_time_partial). *)
 Theorem C05_removed_only_when_true_partial : forall ifs h wakes,
   wf_history h = true -> safe_class ifs h = true ->
   forall f, In f (viol_C05 ifs h wakes (map obs_of (run_history ifs h))) -> is_alive_fail f = false.
@@ -183,8 +180,8 @@ Proof. exact safe_example. Qed.
    ServiceRemoved of that instance on that channel (iteration j), with no delivery in iterations
    j.. of a record that concerns the instance (PTR pointing to it, its SRV / TXT, an address
    record of the host it is resolved to)".  Proved for the histories of safe_class (outside the
-   classes known_ptr_variant and known_srv_targets - inside them the statement is neither proved
-   nor refuted; no generated history of those classes fails F05_again) and with the
+   classes known_ptr_variant and known_srv_targets - inside known_srv_targets it is FALSE, see
+   C05_no_resolved_again_refuted_in_srv_targets (round 6); inside known_ptr_variant it is open) and with the
    well-formedness condition fresh_channels: every browse call uses a channel number greater
    than all used before (a channel number names ONE browse call; the history builders number
    them 1, 2, 3, ...; the driver rejects a history that violates it).
@@ -256,6 +253,109 @@ Example C05_no_resolved_again_example :
   /\ chk_C05 ex_ifs again_hist (ex_wakes again_hist) (map obs_of (run_history ex_ifs again_hist)) = true
   /\ fresh_channels ex_hist = true /\ fresh_channels brexp_hist = true /\ fresh_channels ptrlast_hist = true.
 Proof. exact again_example. Qed.
+
+(* round 6: inside known_srv_targets the F05_again statement is FALSE (model and daemon): after
+   the ServiceRemoved of finding C05-second-srv-target a new address record of the OTHER host makes
+   the daemon resolve the instance again through the first SRV target - no record of the instance
+   or of the host it is resolved to was delivered in between.  Inside known_ptr_variant the
+   statement stays open (neither proved nor refuted). *)
+Theorem C05_no_resolved_again_refuted_in_srv_targets :
+  wf_history again_tgt_hist = true /\ fresh_channels again_tgt_hist = true
+  /\ known_srv_targets (log_of_history ex_ifs again_tgt_hist) = true
+  /\ map (fun o => (existsb is_resolved_evt o, existsb is_removed_evt o)) (run_history ex_ifs again_tgt_hist)
+     = [(false, false); (true, false); (true, false); (false, true); (true, false); (false, false)]
+  /\ existsb is_again_fail (viol_C05 ex_ifs again_tgt_hist (ex_wakes again_tgt_hist)
+                                     (map obs_of (run_history ex_ifs again_tgt_hist))) = true.
+Proof. exact again_srv_targets_witness. Qed.
+
+(* C05, timeliness (round 6).  Full statement:
+       forall ifs h wakes, wf_history h = true ->
+         forall f, In f (viol_C05 ifs h wakes (map obs_of (run_history ifs h))) -> is_dead_fail f = false
+   i.e. the checker never reports F05_dead: at the end of EVERY iteration every instance that is
+   "up" on the current channel of its type (ServiceResolved seen, no ServiceRemoved since) has a
+   PTR, an SRV and an address of that SRV's host unexpired.  So in the first iteration whose `now`
+   is at or after the instant a goodbye's second, the TTL of the PTR / last SRV / last address or a
+   verify deadline runs out, the ServiceRemoved is emitted - on every schedule; whether the daemon
+   is woken at that instant is C12's matter (Props/C12Cache.v), the browser model has no timers.
+   FALSE of the faithful model and the daemon in two classes (witnesses below), proved outside
+   them: timely_class = safe_class (no PTR variants, one SRV target, no root names)
+   && fresh_channels && not known_stop_second_name (C05-stop-browse-drops-shared-records)
+   && not known_removal_hidden (C05-expiry-hidden-by-expiring-ptr, as a class of histories: at some
+   call of resolve_updated_instances an updated instance that is in `resolved` cannot be resolved
+   any more while a PTR record of a browsed name pointing to it is in its last second - that
+   name's browser is not told; evaluated along the model's run).
+   The invariant (UI, Proofs/C05TimelyProofs.v): every up entry whose type is still browsed on
+   its channel has PTR, SRV and an address record PRESENT in the model's cache (expired or not) and
+   its instance is in the model's `resolved` set.  Records leave the cache only in the evictions
+   and in stop_browse (add_or_update, verify and refresh keep every record: C05_update_keeps_records
+   ...); the evictions report what they take - expired PTR, last SRV (round 2 theorems), last
+   address through resolve_updated_instances, which needs `resolved` membership: an instance leaves
+   `resolved` only when it is reported under every browsed name (C05_resolved_set_left_only_when_reported)
+   or the class is hit; after the evictions every record is unexpired, so present = weakly alive. *)
+Theorem C05_removed_on_time_partial : forall ifs h wakes,
+  wf_history h = true -> timely_class ifs h = true ->
+  forall f, In f (viol_C05 ifs h wakes (map obs_of (run_history ifs h))) -> is_dead_fail f = false.
+Proof. exact removed_on_time. Qed.
+
+(* one iteration from any state: goodT = cache invariant + UI + channel bounds; afterwards goodT
+   holds for the up list after the iteration's events, and no record of the cache is expired *)
+Theorem C05_iteration_removed_on_time : forall Lf,
+  known_srv_targets Lf = false -> ptr_names_ok Lf = true ->
+  forall now ifs prev s it ups m m',
+  i_now it = now -> goodT Lf prev s ups m -> incl (prev ++ iter_dlvs ifs it) Lf ->
+  calls_fresh m (i_calls it) = Some m' -> (forall cl, In cl (i_calls it) -> call_ok Lf cl) ->
+  iter_hidden ifs s it = false ->
+  goodT Lf (prev ++ iter_dlvs ifs it) (fst (iterate ifs s it)) (upsf ups (snd (iterate ifs s it))) m'
+  /\ all_live (s_cache (fst (iterate ifs s it))) now.
+Proof. exact iterate_timely. Qed.
+
+(* records are never lost by a delivery or by verify *)
+Theorem C05_update_keeps_records : forall c now ifx r fu, keeps c (fst (add_or_update c now ifx r fu)).
+Proof. exact aou_keeps. Qed.
+
+Theorem C05_verify_keeps_records : forall c inst at_, keeps c (fst (service_verify_queries c inst at_)).
+Proof. exact verify_keeps. Qed.
+
+(* stop_browse of another name leaves an instance's records alone unless that name points to it *)
+Theorem C05_stop_keeps_other_instances : forall c ty2 ty inst,
+  ty <> ty2 ->
+  (forall pb2 p2, bm_get ty2 (c_ptr c) = Some pb2 -> In p2 pb2 -> alias_of (e_rr p2) <> inst) ->
+  present c ty inst -> present (remove_service_type c ty2) ty inst.
+Proof. exact rst_present. Qed.
+
+(* after the two evictions no PTR / SRV / address record of the cache is expired *)
+Theorem C05_evictions_leave_live_records : forall c now,
+  all_live (fst (evict_addr (fst (evict_services c now)) now)) now.
+Proof. exact evict_all_live. Qed.
+
+(* an instance leaves `resolved` in resolve_updated_instances only when it was updated and is
+   invalid under a browsed name that has a PTR record to it *)
+Theorem C05_resolved_set_left_only_when_reported : forall s now updated i,
+  mem i (s_resolved s) = true -> mem i (s_resolved (fst (resolve_updated s now updated))) = false ->
+  mem i updated = true
+  /\ exists t ptrs p, In (t, ptrs) (c_ptr (s_cache s)) /\ In p ptrs /\ alias_of (e_rr p) = i
+                      /\ is_valid (resolve_from_cache (s_cache s) now t i) = false.
+Proof. exact resolve_updated_leaves. Qed.
+
+(* witness of the class known_removal_hidden (finding C05-expiry-hidden-by-expiring-ptr) *)
+Theorem C05_known_removal_hidden_witness :
+  wf_history ptrlast_hist = true /\ safe_class ex_ifs ptrlast_hist = true /\ fresh_channels ptrlast_hist = true
+  /\ known_stop_second_name ex_ifs ptrlast_hist = false
+  /\ known_removal_hidden ex_ifs ptrlast_hist = true
+  /\ existsb is_dead_fail (viol_C05 ex_ifs ptrlast_hist (ex_wakes ptrlast_hist) (map obs_of (run_history ex_ifs ptrlast_hist))) = true.
+Proof. exact removal_hidden_witness. Qed.
+
+(* non-vacuity: histories in timely_class whose traces have ServiceRemoved (goodbye, SRV expiry
+   and address expiry under two names, mixed-case host, ...); the witnesses of the known classes
+   are outside it *)
+Example C05_removed_on_time_example :
+  map (timely_class ex_ifs) [ex_hist; twonames_hist; twonames_addr_hist; mixedcase_hist; again_hist; lastsec_hist]
+  = [true; true; true; true; true; true]
+  /\ map (fun h => existsb (existsb is_removed_evt) (run_history ex_ifs h))
+         [ex_hist; twonames_hist; twonames_addr_hist; mixedcase_hist; again_hist; lastsec_hist]
+     = [true; true; true; true; true; true]
+  /\ map (timely_class ex_ifs) [ptrlast_hist; stopname_hist; ref5_hist; srvtgt_hist] = [false; false; false; false].
+Proof. exact timely_example. Qed.
 
 (* one witness per known class: the class predicate holds and the checker fails *)
 Theorem C05_known_ptr_variant_witness :
@@ -350,6 +450,16 @@ Print Assumptions C05_liveness_decreases_with_time.
 Print Assumptions C05_other_deliveries_keep_dead.
 Print Assumptions C05_resolved_is_strongly_alive.
 Print Assumptions C05_no_resolved_again_example.
+Print Assumptions C05_no_resolved_again_refuted_in_srv_targets.
+Print Assumptions C05_removed_on_time_partial.
+Print Assumptions C05_iteration_removed_on_time.
+Print Assumptions C05_update_keeps_records.
+Print Assumptions C05_verify_keeps_records.
+Print Assumptions C05_stop_keeps_other_instances.
+Print Assumptions C05_evictions_leave_live_records.
+Print Assumptions C05_resolved_set_left_only_when_reported.
+Print Assumptions C05_known_removal_hidden_witness.
+Print Assumptions C05_removed_on_time_example.
 Print Assumptions C05_known_ptr_variant_witness.
 Print Assumptions C05_known_srv_targets_witness.
 Print Assumptions C05_known_ptr_last_second_witness.
